@@ -8,3 +8,26 @@ check("C29", "exploration",
   "Trusted: shuttle-engine coroutine switching, simrt's Mutex/Condvar/clock model (unit-checked by `simcheck selftest` against std's documented semantics). Not simulated: panicking task bodies (Drop-handler panicking() branches), OS-level thread exit after the closure returns.",
   "deterministic simulation: seeded schedule search (random + PCT) over coroutine threads with simulated timed condvars",
   "E1 simrt-threads", "DESIGN.md section 4 (C29)")
+ENGINES[0]["serves_properties"] = ["C28", "C29", "C32"]
+ENGINES.append({"name": "E3 simrt-sequential", "path": "sim/simrt + sim/harness", "serves_properties": ["C26", "C27"],
+  "kind_free_text": "one simulated task plus the clock task: the harness advances the simulated monotonic/wall clock between operations and drives faulty streams / the simulated file system; same record/replay/minimise machinery as E1"})
+check("C26", "exploration",
+  "Seeded request-time histories (gaps 0 .. 10^9 s incl. sub-second carries, window boundaries and the 2^32/rate region) of one response stream against the real limiter reading a simulated monotonic clock; every step compared with a u128 reference token bucket; slip 0/1 semantics and slipped-response shape checked. Sampling of histories, not proof.",
+  "Trusted: the reference bucket (12 lines), the independent wire decoder. One stream per limiter (documented collision eviction excluded). Gaps are capped at 10^9 s, the bound the property states.",
+  "deterministic simulation: simulated clock advanced by seeded gaps, step-by-step refinement check against a reference token bucket",
+  "E3 simrt-sequential", "DESIGN.md section 4 (C26)")
+check("C27", "exploration",
+  "Seeded request pairs/triples from simulated peers (IPv4, IPv6, IPv4-mapped; adversarial prefix-boundary pairs; names equal up to case; same and sibling wildcards; every RCODE category; TCP / non-QUERY / response-less requests in between) against a fresh one-response-per-stream limiter within one simulated second; oracle: B limited <=> an earlier eligible answered request is in B's stream, with stream equivalence computed independently. Sampling, not proof.",
+  "Trusted: ground-truth stream names by construction of the zone; RCODE category taken from a limiter-less server running the same code. 'Different names share a stream' is re-keyed three times before it is reported (documented 32-bit QNAME hash).",
+  "deterministic simulation: simulated peers and clock, seeded adversarial pair generation, independent stream-equivalence oracle",
+  "E3 simrt-sequential", "DESIGN.md section 4 (C27)")
+check("C28", "exploration",
+  "Seeded search over interleavings (random + PCT) of 2-8 simulated threads hammering one response stream through the real handle_message/Rrl path, in bursts with the clock frozen and whole-second refills between bursts; exact conservation oracle: full responses == min(requests, capacity - used), slipped + dropped == rest, slip 0/1 semantics. Sampling of schedules, not proof.",
+  "Trusted: shuttle-engine switching, simrt Mutex/RwLock wrappers (every lock/unlock is a scheduling point), the reference bucket. One stream per limiter.",
+  "deterministic simulation: seeded schedule search over coroutine threads sharing the real bucket table; conservation oracle",
+  "E1 simrt-threads", "DESIGN.md section 4 (C28)")
+check("C32", "exploration",
+  "Seeded search over interleavings of a swapper thread (set_catalog / set_tsig_keys for generations 1..G) with 2-4 query threads (plain and TSIG-signed, UDP/TCP) on the real Server; every record carries its catalog generation; oracles: one generation per response, freshness by event sequence numbers (no stale catalog after set_catalog returned), a signed request's outcome explained by exactly one key generation and the response MAC verifying under it (independent RFC 8945 implementation). Sampling of schedules, not proof.",
+  "Trusted: shuttle RwLock model, the independent wire/TSIG code in the harness (HMAC construction written out over sha1/sha2 hash functions).",
+  "deterministic simulation: seeded schedule search, generation-marker and event-sequence freshness oracles",
+  "E1 simrt-threads", "DESIGN.md section 4 (C32)")
